@@ -99,3 +99,108 @@ pub fn consumer_state_kind(c: &ConsumerState) -> &'static str {
         ConsumerState::RefreshRequired => "refresh_required",
     }
 }
+
+// ------------------------------------------------------------------ C11: valueset merges
+use crate::server::keys::KeyId;
+use crate::value::{AuthType, KeyStatus, KeyUsage, Oauth2Session, Session, SessionState};
+use crate::valueset::{KeyInternalData, ValueSet, ValueSetKeyInternal, ValueSetOauth2Session, ValueSetSession};
+use serde_json::{json, Value as J};
+use time::OffsetDateTime;
+
+fn mcid(ts: u64, srv: u64) -> Cid {
+    Cid::new(Uuid::from_u128(0x5e5e_0000_0000_4000_8000_0000_0000_0000u128 + srv as u128), Duration::from_secs(ts))
+}
+fn cid_back(c: &Cid) -> (u64, u64) {
+    (c.ts.as_secs(), (c.s_uuid.as_u128() & 0xffff) as u64)
+}
+fn st_from(v: &J) -> SessionState {
+    match v["st"].as_str().unwrap_or("never") {
+        "rev" => SessionState::RevokedAt(mcid(v["v"].as_u64().unwrap_or(0), v["s"].as_u64().unwrap_or(0))),
+        "exp" => SessionState::ExpiresAt(OffsetDateTime::UNIX_EPOCH + Duration::from_secs(1_000_000 + v["v"].as_u64().unwrap_or(0))),
+        _ => SessionState::NeverExpires,
+    }
+}
+fn st_back(id: u64, s: &SessionState) -> J {
+    match s {
+        SessionState::RevokedAt(c) => { let (t, sv) = cid_back(c); json!({"id": id, "st": "rev", "v": t, "s": sv}) }
+        SessionState::ExpiresAt(o) => json!({"id": id, "st": "exp", "v": (o.unix_timestamp() - 1_000_000) as u64, "s": 0}),
+        SessionState::NeverExpires => json!({"id": id, "st": "never", "v": 0, "s": 0}),
+    }
+}
+fn kuuid(k: u64) -> Uuid {
+    Uuid::from_u128(0x5e55_1111_0000_4000_8000_0000_0000_0000u128 + k as u128)
+}
+
+/// Build a valueset of `kind` ("session" | "oauth2" | "key") from a JSON list of {id, st, v, s}.
+pub fn build_vs(kind: &str, items: &J) -> Option<ValueSet> {
+    let items = items.as_array()?;
+    match kind {
+        "session" => ValueSetSession::from_iter(items.iter().map(|v| {
+            (kuuid(v["id"].as_u64().unwrap_or(0)), Session {
+                label: "l".to_string(), state: st_from(v), issued_at: OffsetDateTime::UNIX_EPOCH,
+                issued_by: IdentityId::Internal(UUID_SYSTEM), cred_id: kuuid(999), scope: SessionScope::ReadOnly,
+                type_: AuthType::Password, ext_metadata: Default::default(),
+            })
+        })).map(|b| b as ValueSet),
+        "oauth2" => ValueSetOauth2Session::from_iter(items.iter().map(|v| {
+            (kuuid(v["id"].as_u64().unwrap_or(0)), Oauth2Session {
+                parent: Some(kuuid(500)), state: st_from(v), issued_at: OffsetDateTime::UNIX_EPOCH, rs_uuid: kuuid(600),
+            })
+        })).map(|b| b as ValueSet),
+        "key" => {
+            let it = items.iter().map(|v| {
+                let status = match v["st"].as_str().unwrap_or("valid") { "rev" => KeyStatus::Revoked, "ret" => KeyStatus::Retained, _ => KeyStatus::Valid };
+                (KeyId::from(format!("{:08x}", v["id"].as_u64().unwrap_or(0))), KeyInternalData {
+                    usage: KeyUsage::JwsEs256, valid_from: 0, status,
+                    status_cid: mcid(v["v"].as_u64().unwrap_or(0), v["s"].as_u64().unwrap_or(0)),
+                    der: Vec::new().into(),
+                })
+            });
+            if items.is_empty() { None } else { Some(ValueSetKeyInternal::from_key_iter(it).ok()?) }
+        }
+        _ => None,
+    }
+}
+
+/// Project a valueset of `kind` back to the JSON list shape (sorted by id).
+pub fn proj_vs(kind: &str, vs: &ValueSet) -> J {
+    let mut out: Vec<J> = vec![];
+    match kind {
+        "session" => if let Some(m) = vs.as_session_map() {
+            for (k, s) in m.iter() { out.push(st_back((k.as_u128() & 0xffff) as u64, &s.state)); }
+        },
+        "oauth2" => if let Some(m) = vs.as_oauth2session_map() {
+            for (k, s) in m.iter() { out.push(st_back((k.as_u128() & 0xffff) as u64, &s.state)); }
+        },
+        "key" => if let Some(m) = vs.as_key_internal_map() {
+            for (k, d) in m.iter() {
+                let id = u64::from_str_radix(&k.to_string(), 16).unwrap_or(0);
+                let st = match d.status { KeyStatus::Revoked => "rev", KeyStatus::Retained => "ret", KeyStatus::Valid => "valid" };
+                let (t, sv) = cid_back(&d.status_cid);
+                out.push(json!({"id": id, "st": st, "v": t, "s": sv}));
+            }
+        },
+        _ => {}
+    }
+    out.sort_by_key(|v| v["id"].as_u64().unwrap_or(0));
+    J::Array(out)
+}
+
+/// newer.repl_merge_valueset(older, trim) exactly as merge_state calls it; None = "take newer as is".
+pub fn merge_vs(kind: &str, newer: &J, older: &J, trim: (u64, u64)) -> J {
+    // a valueset emptied by trim cannot be rebuilt through the public constructors: merging with an empty
+    // map equals merging the other side with itself (insert all, then trim), which uses the real code
+    let ne = newer.as_array().map(|a| a.is_empty()).unwrap_or(true);
+    let oe = older.as_array().map(|a| a.is_empty()).unwrap_or(true);
+    if ne && oe {
+        return json!([]);
+    }
+    let (newer, older) = if ne { (older, older) } else if oe { (newer, newer) } else { (newer, older) };
+    let (Some(n), Some(o)) = (build_vs(kind, newer), build_vs(kind, older)) else {
+        return json!([]);
+    };
+    match n.repl_merge_valueset(&o, &mcid(trim.0, trim.1)) {
+        Some(m) => proj_vs(kind, &m),
+        None => proj_vs(kind, &n),
+    }
+}
